@@ -17,6 +17,7 @@ import (
 //	b <op> <lit> <s> <value>... [E]  the same through Store.QueryIds of a bolt store (c11_bolt.go)
 //	d <form> <lit> <s> <lit2> <s2> <field>...   two literals in one filter (or / in / and-ne)
 //	m <s> <filter in prefix form> . <field>...  a whole filter with repeated literals under mixed operators (c11_mixed.go)
+//	s <s> <filter in prefix form> . <rows>      a whole filter over SET symbols (anyOf / allOf), memory + bolt (c11_sets.go)
 //
 // <lit> is the quoted literal, built by the *generator* from s with a random choice, per
 // control character occurrence, of escaped or raw form (raw control characters are not
@@ -25,11 +26,14 @@ func init() {
 	register("c11", &propHarness{gen: c11Gen, exec: c11Exec})
 }
 
-var c11Alphabet = []string{"a", "n", "t", "\\", "\"", " ", "\n", "\t", "x"}
+// `*` stands for the characters that mean something in glob / regex / LIKE patterns: in a literal it denotes itself
+var c11Alphabet = []string{"a", "n", "t", "\\", "\"", " ", "\n", "\t", "x", "*"}
 var c11Extra = []string{"r", "f", "\r", "\f", "é", "and", "\\\\", "\"\"", "'", "%", "世",
 	// characters with an ASCII look-alike or no width: a literal must denote them as they are
 	// keywords and punctuation of the filter language inside a literal are just characters
 	"o", "not", "NOT ", "in", "or", " and ", "null", "true", "contains", "(", ")", "[", "]", ",", "=", "!",
+	// pattern metacharacters (glob, regex, SQL LIKE), alone and in the usual shapes
+	"*", "*", "%", "_", "?", ".", "^", "$", "~", "/", "|", "+", "{", "}", ".*", "\\*", "[a-z]",
 	"\u00a0", "\u202f", "\u201c", "\u201d", "\u2018", "\uff02", "\uff3c", "\u200b", "\ufeff", "e\u0301", "A", "N"}
 
 // c11Confusable maps each character that has an ASCII look-alike (or no width) to it
@@ -123,6 +127,8 @@ func c11Fields(s string, r *rng) []string {
 	if len(s) > 0 {
 		fs = append(fs, s[1:], s[:len(s)-1])
 	}
+	// what a pattern reading of a metacharacter in s would match (value = literal minus metacharacter + suffix)
+	fs = append(fs, c11MetaFields(s)...)
 	fs = append(fs, "")
 	return fs
 }
@@ -154,6 +160,10 @@ func c11Emit(out *bufio.Writer, s string, r *rng) {
 	// a whole filter with several comparisons whose literals repeat (c11_mixed.go)
 	if r.chance(1, 2) {
 		c11EmitMixed(out, s, r)
+	}
+	// a whole filter over set symbols, several comparisons on the same set (c11_sets.go)
+	if r.chance(1, c11SetRate) {
+		c11EmitSets(out, s, r)
 	}
 	// the same through a bolt-backed store (ids and a string field), for one string in eight and
 	// always for short ones: values must be usable bbolt keys (non-empty) and distinct
@@ -195,11 +205,15 @@ func c11Emit(out *bufio.Writer, s string, r *rng) {
 	}
 }
 
+// one string in c11SetRate gets an s case (each costs a bolt database)
+var c11SetRate = 4
+
 func c11Gen(tier string, seed uint64, out *bufio.Writer) {
 	r := newRng(seed)
 	maxLen := 4
 	if tier == "thorough" {
 		maxLen = 5
+		c11SetRate = 8
 	}
 	// bounded-exhaustive: all strings over the 9-character alphabet up to maxLen
 	var rec func(prefix string, n int)
@@ -281,6 +295,8 @@ func c11Exec(line string) string {
 		return c11ExecBolt(f)
 	case "m":
 		return c11ExecMixed(f)
+	case "s":
+		return c11ExecSets(f)
 	case "d":
 		l1, l2 := fromWire(f[2]), fromWire(f[4])
 		var q string
